@@ -947,7 +947,7 @@ impl<'a, 'b, 'ast> Visit<'ast> for BodyV<'a, 'b> {
         // R25: `X.and_then(|p| B)` / `X.or_else(|p| B)` / `X.unwrap_or_else(|p| B)` whose closure
         // body performs a file-system mutation -> the combinator's definition written out as a
         // `match` (Verus has no closures that capture the mutable ghost world)
-        if (name == "and_then" || name == "or_else" || name == "unwrap_or_else") && e.args.len() == 1 && e.turbofish.is_none() {
+        if (name == "and_then" || name == "or_else" || name == "unwrap_or_else" || name == "map_err" || name == "ok_or_else" || name == "then") && e.args.len() == 1 && e.turbofish.is_none() {
             if let Expr::Closure(c) = &e.args[0] {
                 let no_modes: HashMap<String, String> = HashMap::new();
                 let mut sc = EffScan { cfg: self.fc.cfg, auto_modes: &no_modes, mode: 0 };
@@ -975,6 +975,9 @@ impl<'a, 'b, 'ast> Visit<'ast> for BodyV<'a, 'b> {
                         ("or_else", 0) => ("(match ".to_string(), " { Some(__v) => Some(__v), None => ".to_string(), " })".to_string()),
                         ("unwrap_or_else", 1) => ("(match ".to_string(), format!(" {{ Ok(__v) => __v, Err({pat}) => "), " })".to_string()),
                         ("unwrap_or_else", 0) => ("(match ".to_string(), " { Some(__v) => __v, None => ".to_string(), " })".to_string()),
+                        ("map_err", 1) => ("(match ".to_string(), format!(" {{ Ok(__v) => Ok(__v), Err({pat}) => Err("), ") })".to_string()),
+                        ("ok_or_else", 0) => ("(match ".to_string(), " { Some(__v) => Ok(__v), None => Err(".to_string(), ") })".to_string()),
+                        ("then", 0) => ("(if ".to_string(), " { Some(".to_string(), ") } else { None })".to_string()),
                         _ => (String::new(), String::new(), String::new()),
                     };
                     if !pre.is_empty() {
